@@ -28,6 +28,8 @@ FAMILIES = {
     "c08-1axis": dict(n_axes=1, layout="onaxis", n_glyphs=1, mapped=0.0, instances=3, post=lambda m, r: M.hostile_axes(m, r)),
     "c08-2axis": dict(n_axes=2, layout="onaxis", n_glyphs=1, mapped=0.0, instances=3, post=lambda m, r: M.hostile_axes(m, r)),
     "c08-3axis-int": dict(n_axes=3, layout="intermediate", n_glyphs=2, mapped=0.0, instances=2, post=lambda m, r: M.hostile_axes(m, r)),
+    "c17-special-static": dict(n_axes=0, n_glyphs=14, composites=0.5, nested=True, transforms="scale", unicodes="multi", post=lambda m, r: M.summary_special(m, r)),
+    "c17-special-var": dict(n_axes=1, layout="onaxis", n_glyphs=12, composites=0.5, nested=True, transforms="rotate", vertical=True, post=lambda m, r: M.summary_special(m, r)),
     "kern-static": dict(n_axes=0, n_glyphs=12, composites=0.0, kern=dict(pairs=25)),
     "kern-var1": dict(n_axes=1, layout="onaxis", n_glyphs=14, composites=0.0, kern=dict(pairs=30, partial=0.3)),
     "kern-divergent": dict(n_axes=2, layout="corners", n_glyphs=16, composites=0.0, kern=dict(pairs=40, divergent=0.8, partial=0.2)),
@@ -43,6 +45,7 @@ BY_PROPERTY = {
     "C04": ["var1-onaxis", "var1-intermediate", "var2-corners", "var2-mixed-sparse", "var3-mixed", "var1-vertical", "var1-vertical", "var2-partialorder"],
     "C06": ["c06-partial-notdef-mid", "c06-none-notdef-last", "c06-full-notdef-first", "c06-full-nonotdef", "c06-prodnames", "c06-mixed", "static-noorder", "var1-nonexport", "var2-partialorder"],
     "C08": ["c08-1axis", "c08-2axis", "c08-3axis-int", "c08-1axis"],
+    "C17": ["c17-special-static", "c17-special-var", "var2-nested-xform", "c17-special-static", "var1-vertical", "c06-partial-notdef-mid", "kern-static"],
     "C14": ["var1-noorder", "var2-mixed-sparse", "var1-mixedglyphs", "kern-var1", "kern-intermediate", "kern-divergent"],
 }
 
